@@ -50,6 +50,16 @@ POOL = [
     ("ARG", dict(B, chicken_head=500000000, pig_head=100000, NMONTHS=48)),
     ("ARG", dict(B, NMONTHS=48)),
 ]
+# batches: several countries run by ONE call of the multi-country runner with ONE option dictionary (the runner shares it between the
+# countries of a batch, in the row order of the input table); every country's result must be what it is when run alone.  Three batches
+# start with a country for which the loader rewrites a known-bad scenario (ALB, SLV, ECU) followed by countries that do use feed
+BATCHES = [
+    (dict(B, scenario="seaweed", shutoff="continued", NMONTHS=48, **NW), ["ALB", "ARG", "BRB"]),
+    (dict(B, scenario="all_resilient_foods", shutoff="long_delayed_shutoff", NMONTHS=48, **NW), ["SLV", "SWE", "USA"]),
+    (dict(B, scenario="greenhouse", shutoff="long_delayed_shutoff", meat_strategy="feed_only_ruminants", NMONTHS=48), ["ECU", "FRA", "NZL"]),
+    (dict(B, nutrition="catastrophe", shutoff="short_delayed_shutoff", NMONTHS=48, **NW), ["CHN", "LUX", "DJI"]),
+]
+BATCH_ITEMS = [(iso, o) for o, isos in BATCHES for iso in isos]
 REFS = None
 
 
@@ -68,7 +78,7 @@ def digest(res):
 
 
 def run_item(i, title="c14"):
-    iso, o = POOL[i]
+    iso, o = (POOL + BATCH_ITEMS)[i]
     r = model.run_case(iso, copy.deepcopy(o), title=title, capture=False)
     if not r["ok"]:
         return None, "%s@%s: %s" % (r["exc_type"], r["exc_frame"], r["exc_msg"])
@@ -90,11 +100,41 @@ def _alone(i):
 def prepare(tier):
     global REFS
     from concurrent.futures import ThreadPoolExecutor
-    with ThreadPoolExecutor(max_workers=min(16, len(POOL))) as ex:
-        REFS = list(ex.map(_alone, range(len(POOL))))
+    with ThreadPoolExecutor(max_workers=16) as ex:
+        REFS = list(ex.map(_alone, range(len(POOL) + len(BATCH_ITEMS))))
     bad = [i for i, (d, e) in enumerate(REFS) if d is None]
     if bad:
         raise RuntimeError("pool items do not complete alone: %r" % [(i, REFS[i][1]) for i in bad])
+
+
+def run_batch(ctx, j, history=()):
+    """one multi-country call with one shared option dictionary; every country's digest against its stand-alone reference"""
+    from src.scenarios.run_model_no_trade import ScenarioRunnerNoTrade
+    o, isos = BATCHES[j]
+    case = dict(kind="batch", batch=j, steps=list(history))
+    t = model.country_table()
+    names = dict(zip(t["iso3"], t["country"]))
+    shared = copy.deepcopy(o)
+    try:
+        with quiet():
+            out = ScenarioRunnerNoTrade().run_model_no_trade(title="c14_batch_%d" % ctx.shard, create_pptx_with_all_countries=False,
+                                                             show_country_figures=False, show_map_figures=False, add_map_slide_to_pptx=False,
+                                                             scenario_option=shared, countries_list=list(isos), return_results=True)
+    except (AssertionError, Exception) as e:
+        ctx.fail("batch-fails-although-every-country-completes-alone", "%r: %s: %s" % (isos, type(e).__name__, str(e)[:120]), case)
+    results = out[3]
+    base = len(POOL) + sum(len(b[1]) for b in BATCHES[:j])
+    for k, iso in enumerate(isos):
+        ctx.count()
+        if names[iso] not in results:
+            ctx.fail("batch-result-missing-a-country", "%s not in %r" % (iso, sorted(results)), case)
+        d = digest(results[names[iso]])
+        if d != REFS[base + k][0]:
+            ctx.fail("result-differs-from-the-same-run-computed-alone",
+                     "%s in batch %r (one shared option dictionary): digest %s.., %s.. alone in a fresh process; percent fed %.6f" %
+                     (iso, isos, d[:12], REFS[base + k][0][:12], float(results[names[iso]].percent_people_fed)), case)
+    ctx.event("batch_%s_first" % isos[0])
+    ctx.nontrivial_case(["batch", j] + [list(x) for x in history])
 
 
 def profile(i):
@@ -141,6 +181,13 @@ def make_machine(ctx):
         @rule(i=st.integers(0, len(POOL) - 1))
         def run_c(self, i):
             self.run.hypothesis_stateful_rule.function(self, i)
+
+        @rule(j=st.integers(0, len(BATCHES) - 1))
+        def batch(self, j):
+            self.steps.append(["batch", j])
+            ctx.event("step_batch")
+            run_batch(ctx, j, self.steps[:-1])
+            self.disturbed = True
 
         @precondition(lambda self: self.last is not None)
         @rule()
@@ -197,7 +244,7 @@ def make_machine(ctx):
                 ctx.count()
                 if self.nt and self.checked >= 1 and len(self.steps) >= 2:
                     ctx.nontrivial_case(self.steps)
-                ctx.sample(dict(history=[(s[0], POOL[s[1]][0]) + tuple(s[2:]) for s in self.steps], completed_runs_checked=self.checked), limit=3)
+                ctx.sample(dict(history=[(s[0], "+".join(BATCHES[s[1]][1]) if s[0] == "batch" else POOL[s[1]][0]) + tuple(s[2:]) for s in self.steps], completed_runs_checked=self.checked), limit=3)
 
     return History
 
@@ -212,6 +259,12 @@ def shard(ctx):
         run_state_machine_as_test(hypothesis.seed(seed)(M), settings=hyp_settings(38 if thorough else 3, shrink=False, stateful_steps=6))
     except Violation as v:
         ctx.record_violation(ctx._last_violation or v)
+    # every batch is run on every check (not left to the draw)
+    if ctx.shard < len(BATCHES) * (4 if thorough else 1):
+        try:
+            run_batch(ctx, ctx.shard % len(BATCHES), [["after-the-random-history-of-shard", ctx.shard]])
+        except Violation as v:
+            ctx.record_violation(v)
     if thorough:
         # all ordered pairs of the pool
         pairs = [(a, b) for a in range(len(POOL)) for b in range(len(POOL)) if a != b]
@@ -236,11 +289,15 @@ def replay(case, ctx, count=True):
     m = M()
     try:
         for s in case["steps"]:
+            if s[0] == "after-the-random-history-of-shard":
+                continue
             fn = getattr(M, s[0])
             body = fn.hypothesis_stateful_rule.function if hasattr(fn, "hypothesis_stateful_rule") else fn
             if s[0] == "again":
                 body(m)
             else:
                 body(m, *s[1:])
+        if case.get("kind") == "batch":
+            run_batch(ctx, case["batch"], case["steps"])
     finally:
         m.teardown()
